@@ -261,4 +261,5 @@ const prelude = `(set-option :produce-models true)
 (assert (forall ((a Int) (b Int)) (! (= (xor8 a b) (xor8 b a)) :pattern ((xor8 a b)))))
 (assert (forall ((a Int) (b Int)) (! (and (<= 0 (and8 a b)) (<= (and8 a b) 255) (=> (and (<= 0 a) (<= 0 b)) (and (<= (and8 a b) a) (<= (and8 a b) b)))) :pattern ((and8 a b)))))
 (assert (forall ((a Int) (b Int)) (! (and (<= 0 (or8 a b)) (<= (or8 a b) 255)) :pattern ((or8 a b)))))
+(assert (forall ((a Int) (b Int)) (! (=> (and (<= 0 a) (<= a 255) (= (mod a 16) 0) (<= 0 b) (< b 16)) (= (or8 a b) (+ a b))) :pattern ((or8 a b)))))
 `
